@@ -9,7 +9,7 @@ about the model; it is checked by the correspondence: every tape is replayed in 
 in two separately started processes, and decision logs, outputs and verdicts are compared with each
 other and with the model's trace.  Level: proof-of-model (trivial) + replay correspondence; partial.
 -/
-import HvSim.Model.Sim
+import HvSim.Props.C37
 namespace HvSim
 variable {κ α : Type} [DecidableEq κ]
 
@@ -37,6 +37,27 @@ theorem driver_calls_replay (d : Drv) (lo hi : Nat) :
       obtain ⟨rfl, rfl⟩ := h
       exact ⟨rfl, rfl⟩
   · exact ⟨rfl, rfl⟩
+
+/-- a recorded driver call replays: feeding a driver primitive the value it logged (as offset into the
+requested range, which is what bolero's replay of a recorded input does) returns the same value, logs
+the same call and consumes exactly that entry — so a decision log determines a tape that reproduces it,
+call by call (the lifting to whole `run_hooks` runs is by the same per-hook tape framing as in C37 and
+is not proved here; it is what the replay correspondence exercises) -/
+theorem recorded_call_replays (d : Drv) (lo hi v : Nat) (d' : Drv) (h : d.nat lo hi = some (v, d'))
+    (rest : List Nat) (log : List Call) :
+    (⟨(v - lo) :: rest, log⟩ : Drv).nat lo hi = some (v, ⟨rest, .u lo hi v :: log⟩) ∧
+    (⟨(if (d.bool).1 then 1 else 0) :: rest, log⟩ : Drv).bool = ((d.bool).1, ⟨rest, .b (d.bool).1 :: log⟩) := by
+  have hr := aux_nat_range h
+  exact ⟨aux_nat_hit lo hi v log rest hr.1 hr.2, aux_bool_hit _ log rest⟩
+
+/-- a hook that makes no driver call cannot depend on the decision input at all: the (fixed)
+`PassthroughSingletonHook` decides the same on every tape -/
+theorem passthrough_decision_ignores_tape (q : List α) (r : Option (α × Bool)) (last : Option α) (f : Bool)
+    (d₁ d₂ : Drv) :
+    ((Hook.passthrough (κ := κ) q r last).auto d₁ f).map (fun x => (x.1, x.2.1)) =
+    ((Hook.passthrough (κ := κ) q r last).auto d₂ f).map (fun x => (x.1, x.2.1)) := by
+  simp only [Hook.auto, Option.map_map]
+  cases passthroughAuto q last f <;> rfl
 
 example : runHooks [Hook.keyedNo [(7, [1, 2]), (9, [3])] none] ⟨[0, 1], []⟩
     = runHooks [Hook.keyedNo [(7, [1, 2]), (9, [3])] none] ⟨[0, 1], []⟩ :=
